@@ -586,6 +586,12 @@ package restful
 //@ callsite iface:PathProcessor.ExtractParameters [C04] processor: processorFor(c.router, self) && arg0 == route && arg1 == webService && arg2 == httpRequest.URL.Path
 //@ ensures lock-balance: servicesLock(c) == 0
 //@ signals lock-balance: servicesLock(c) == 0
+// C12 (no deadlock, requests not delayed by a pending Add/Remove): user code — filters, the route function, the
+// recover handler — runs without the services lock, so a handler that blocks, or that re-enters the container,
+// cannot wedge a writer waiting for the lock and every reader queued behind it
+//@ callsite (*FilterChain).ProcessFilter [C12] unlocked: servicesLock(c) == 0
+//@ callsite RouteFunction [C12] unlocked: servicesLock(c) == 0
+//@ callsite RecoverHandleFunction [C12] unlocked: servicesLock(c) == 0
 // C10/C13: no compressor is lost or kept: everything dispatch acquired has been released, on every exit
 //@ ensures [C10] pool-balance: !isCRW(httpWriter) ==> ghostInt("own.acquired", currentCompressorProvider) - ghostIntAtEntry("own.acquired", currentCompressorProvider) == ghostInt("own.released", currentCompressorProvider) - ghostIntAtEntry("own.released", currentCompressorProvider)
 //@ signals [C10] pool-balance: !isCRW(httpWriter) ==> ghostInt("own.acquired", currentCompressorProvider) - ghostIntAtEntry("own.acquired", currentCompressorProvider) == ghostInt("own.released", currentCompressorProvider) - ghostIntAtEntry("own.released", currentCompressorProvider)
@@ -1229,6 +1235,127 @@ package restful
 //@ ensures inverse: rkSrc(h, n, rkPos(h, n, j)) == j
 //@ trigger rkPos(h, n, j)
 //@ trigger rParsed(h, j), rkLen(h, n)
+
+// ---------------------------------------------------------------------------
+// writing an entity (C05 C15): WriteHeaderAndEntity hands the value to the chosen writer exactly once, or records
+// and sends 406; the built-in XML writer labels the response with the content type it was registered with and
+// returns the error of a failing Write
+
+//@ func iface:EntityReaderWriter.Write
+//@ props C05 C15
+//@ trusted A-CB: a registered entity writer is user code (or writeJSON/writeXML): it may set headers, write the status and the body through the Response it is given, or panic
+//@ modifies cb(resp), headers, ghost $trace, ghost $g.wstatus, ghost $g.whcalls, ghost $g.accepted, ghost $g.lasterr, ghost $g.wcalls
+
+//@ func (*Response).WriteHeaderAndEntity
+//@ props C05 C15
+//@ requires r != nil && r.ResponseWriter != nil && ghostInt("lock.ptr", entityAccessRegistry.protection) >= 0
+//@ requires registered: allRegistered(entityAccessRegistry, r.routeProduces)
+//@ modifies r.statusCode, cb(r), headers, ghost $trace, ghost $g.wstatus, ghost $g.whcalls, ghost $g.accepted, ghost $g.lasterr, ghost $g.wcalls
+// C15: without a writer the 406 is recorded in the Response and sent, and nothing else happens
+//@ callsite (*Response).WriteHeader notacceptable: arg0 == r && arg1 == 406
+// C05: the value goes to a writer exactly once, with this response and the given status
+//@ callsite iface:EntityReaderWriter.Write once: arg0 == r && arg1 == status
+//@ callsite iface:EntityReaderWriter.Write value: same(arg2, value)
+//@ callsite iface:EntityReaderWriter.Write first: calls() == old(calls())
+
+//@ func ext:encoding/xml.MarshalIndent
+//@ props C05 C15
+//@ trusted A-RT: encoding/xml is a dependency; MarshalIndent returns the encoding or an error and touches nothing of this package
+//@ modifies nothing
+//@ ensures result1 == nil ==> result0 == nil || fresh(result0)
+
+//@ func ext:encoding/xml.NewEncoder
+//@ props C05 C15
+//@ trusted A-RT: returns an encoder bound to the writer
+//@ modifies nothing
+//@ ensures result != nil
+//@ nopanic
+
+//@ func ext:(*encoding/xml.Encoder).Encode
+//@ props C05 C15
+//@ trusted A-RT: writes the encoding through the writer the encoder is bound to and returns the first error (its effect on Response.contentLength is not modelled: no clause of writeXML mentions it)
+//@ requires self != nil
+//@ modifies ghost $g.accepted, ghost $g.lasterr, ghost $g.wcalls
+
+//@ func writeXML
+//@ props C05 C15
+//@ requires resp != nil && resp.ResponseWriter != nil
+//@ modifies resp.statusCode, resp.contentLength, headers, ghost $g.wstatus, ghost $g.whcalls, ghost $g.accepted, ghost $g.lasterr, ghost $g.wcalls
+// a nil value is answered with the status alone
+//@ ensures nil-value: v == nil ==> result == nil && resp.statusCode == status && statusReceived(resp.ResponseWriter) == status && writeCalls(resp.ResponseWriter) == old(writeCalls(resp.ResponseWriter))
+// C15: the status that is sent is the one that is recorded
+//@ ensures status: writeHeaderCalls(resp.ResponseWriter) != old(writeHeaderCalls(resp.ResponseWriter)) ==> resp.statusCode == status && statusReceived(resp.ResponseWriter) == status
+// C05: whenever a status goes out for a value, the response is labelled with the content type of this writer
+//@ ensures content-type: v != nil && writeHeaderCalls(resp.ResponseWriter) != old(writeHeaderCalls(resp.ResponseWriter)) ==> hdrOf(resp.ResponseWriter).Get("Content-Type") == contentType
+// C15: pretty printing writes the document itself: when a Write was attempted, the result is the error of the last one (nil if it accepted everything)
+//@ ensures write-error: resp.prettyPrint && writeCalls(resp.ResponseWriter) != old(writeCalls(resp.ResponseWriter)) ==> result == lastWriteErr(resp.ResponseWriter)
+//@ ensures stops: resp.prettyPrint && writeCalls(resp.ResponseWriter) == old(writeCalls(resp.ResponseWriter)) + 2 ==> accepted(resp.ResponseWriter) - old(accepted(resp.ResponseWriter)) >= len(xml.Header)
+
+//@ func (entityXMLAccess).Write
+//@ props C05 C15
+//@ requires resp != nil && resp.ResponseWriter != nil
+//@ modifies resp.statusCode, resp.contentLength, headers, ghost $g.wstatus, ghost $g.whcalls, ghost $g.accepted, ghost $g.lasterr, ghost $g.wcalls
+//@ ensures content-type: v != nil && writeHeaderCalls(resp.ResponseWriter) != old(writeHeaderCalls(resp.ResponseWriter)) ==> hdrOf(resp.ResponseWriter).Get("Content-Type") == e.ContentType
+
+// the JSON writer: MarshalIndent, NewEncoder and NewDecoder are package variables holding the encoding/json
+// functions (A-FUNCVAR: a replacement has the same contract)
+//@ func ext:encoding/json.MarshalIndent
+//@ props C05 C15
+//@ trusted A-RT: encoding/json is a dependency; MarshalIndent returns the encoding or an error and touches nothing of this package
+//@ modifies nothing
+//@ ensures result1 == nil ==> result0 == nil || fresh(result0)
+
+//@ func ext:encoding/json.NewEncoder
+//@ props C05 C15
+//@ trusted A-RT: returns an encoder bound to the writer
+//@ modifies nothing
+//@ ensures result != nil
+//@ nopanic
+
+//@ func ext:encoding/json.NewDecoder
+//@ props C16
+//@ trusted A-RT: returns a decoder reading from the body
+//@ modifies nothing
+//@ ensures result != nil && fresh(result) && ghostInt("usenumber", result) == 0
+//@ nopanic
+
+//@ func ext:(*encoding/json.Encoder).Encode
+//@ props C05 C15
+//@ trusted A-RT: writes the encoding through the writer the encoder is bound to and returns the first error (its effect on Response.contentLength is not modelled: no clause of writeJSON mentions it)
+//@ modifies ghost $g.accepted, ghost $g.lasterr, ghost $g.wcalls
+
+//@ func writeJSON
+//@ props C05 C15
+//@ requires resp != nil && resp.ResponseWriter != nil
+//@ modifies resp.statusCode, resp.contentLength, headers, ghost $g.wstatus, ghost $g.whcalls, ghost $g.accepted, ghost $g.lasterr, ghost $g.wcalls
+//@ ensures nil-value: v == nil ==> result == nil && resp.statusCode == status && statusReceived(resp.ResponseWriter) == status && writeCalls(resp.ResponseWriter) == old(writeCalls(resp.ResponseWriter))
+//@ ensures status: writeHeaderCalls(resp.ResponseWriter) != old(writeHeaderCalls(resp.ResponseWriter)) ==> resp.statusCode == status && statusReceived(resp.ResponseWriter) == status
+//@ ensures content-type: v != nil && writeHeaderCalls(resp.ResponseWriter) != old(writeHeaderCalls(resp.ResponseWriter)) ==> hdrOf(resp.ResponseWriter).Get("Content-Type") == contentType
+//@ ensures write-error: resp.prettyPrint && writeCalls(resp.ResponseWriter) != old(writeCalls(resp.ResponseWriter)) ==> result == lastWriteErr(resp.ResponseWriter)
+
+//@ func (entityJSONAccess).Write
+//@ props C05 C15
+//@ requires resp != nil && resp.ResponseWriter != nil
+//@ modifies resp.statusCode, resp.contentLength, headers, ghost $g.wstatus, ghost $g.whcalls, ghost $g.accepted, ghost $g.lasterr, ghost $g.wcalls
+//@ ensures content-type: v != nil && writeHeaderCalls(resp.ResponseWriter) != old(writeHeaderCalls(resp.ResponseWriter)) ==> hdrOf(resp.ResponseWriter).Get("Content-Type") == e.ContentType
+
+// reading JSON (C16): numbers are kept as json.Number (64-bit integers survive) for every target type
+//@ func ext:(*encoding/json.Decoder).UseNumber
+//@ props C16
+//@ trusted A-RT: switches the decoder to json.Number
+//@ modifies ghost $g.usenumber
+//@ ensures ghostInt("usenumber", self) == 1
+
+//@ func ext:(*encoding/json.Decoder).Decode
+//@ props C16
+//@ trusted A-RT: decodes the next value into v (user memory) and reports malformed input as an error
+//@ modifies nothing
+
+//@ func (entityJSONAccess).Read
+//@ props C16
+//@ requires req != nil && req.Request != nil
+//@ modifies ghost $g.usenumber
+//@ callsite ext:(*encoding/json.Decoder).Decode numbers: ghostInt("usenumber", self) == 1
 
 // ---------------------------------------------------------------------------
 // http middleware adapter (C06)
